@@ -8,6 +8,9 @@ BASE_NOTE = "Trusted base: Go 1.26.8 toolchain (testing/synctest for the virtual
 
 # property -> (technique, level text, design ref, extra note)
 CLAIMED = {
+ "C04": ("fault-tape search in a synctest bubble between two library endpoints (datagram and stream/BERT), exhaustive SZX x boundary-size grid, position-dependent bodies as round-trip oracle",
+         "Fault-free grid over every SZX pair x body sizes at block boundaries +-1 (datagram) and SZX/BERT x max-message-size pairs (stream), plus 10k (quick) / 300k (thorough) generated scenarios with per-direction fault tapes (drop, duplicate, re-order, replay), concurrent transfers, one-way writes and block-wise notifications; every body that reaches an application or a caller must equal a complete original, exactly once for a successful block-wise upload.",
+         "DESIGN.md 3/C04", "Completion is only required on the fault-free grid with symmetric message-size limits."),
  "C16": ("exhaustive enumeration of event orders in a synctest bubble against slot invariants; rapid for longer histories",
          "Every order of {arrive, cancel, finish} events for 3 requests (4 in the thorough tier) x cancel subsets x path assignments x limit pairs is executed one event at a time with quiescence detection after each, and the limit, no-lost-slot, arrival-order and cancelled-waiter invariants are evaluated at every quiescent point; longer random histories (4-7 requests, 3 paths) on top.",
          "DESIGN.md 3/C16", "Events are applied one at a time; truly simultaneous admission/cancellation is left to the runtime's interleaving in the random engine."),
